@@ -20,6 +20,7 @@ mod scen;
 mod scen_bits;
 mod scen_bytes;
 mod scen_events;
+mod scen_full;
 mod scen_pairs;
 mod spec;
 mod typist;
@@ -71,6 +72,8 @@ fn scenario(id: &str) -> Option<Box<dyn Scenario>> {
         "C14" => Box::new(scen_events::Events { prop: scen_events::EProp::C14 }),
         "C19" => Box::new(scen_pairs::Pairs),
         "C13" => Box::new(scen_pairs::Dual),
+        "C18" => Box::new(scen_full::Full),
+        "C08" => Box::new(scen_full::Chaos),
         "C05" => Box::new(scen_bits::Bits { prop: scen_bits::WProp::C05 }),
         "C06" => Box::new(scen_bits::Bits { prop: scen_bits::WProp::C06 }),
         _ => return None,
